@@ -83,6 +83,8 @@ Definition zeroT : T := n_ofZ N 0.
 (* a Renderer on which SetRasterizer(dst, rect) has been called, before any Reset:
    the viewBox is the zero value *)
 Definition rinit (x0 y0 w h : Z) : rstate T :=
+  (* SetRasterizer: an empty rectangle is replaced by the zero rectangle *)
+  let '(x0, y0, w, h) := if (w <=? 0) || (h <=? 0) then (0, 0, 0, 0) else (x0, y0, w, h) in
   let vb := mkVB 0 0 0 0 in
   mkR T x0 y0 w h
       (n_div N (n_ofZ N w) (n_sub N (n_of32 N 0) (n_of32 N 0))) (n_neg N (n_of32 N 0))
